@@ -33,6 +33,11 @@ IntervalUnits == {"second", "seconds", "SECONDS", "Minute", "minutes", "hour", "
 \* SMALL LETTER LONG S (upper-cases to "S"): units are ASCII case-insensitive only, so these are junk
 JunkUnits == {"k", "kbs", "bytes", "sec", "s", "fortnight", "kb x", "b1", "pb", "~b", "~ib", "wee~", "wee~s", "^econd", "^econds", "m^",
               "k b", "ki b", "m  b", "sec onds", "wee ks"}
+\* long junk: "#n#p" stands for n letters "k" with one multi-byte letter at position p (0 = none).  Error paths that
+\* echo, truncate or classify the offending unit see every length around 8 .. 256 and every place for the wide letter.
+LongLens == {7, 8, 9, 15, 16, 17, 31, 32, 33, 34, 63, 64, 65, 127, 128, 129, 255, 256, 257}
+LongJunk == {"#" \o ToString(n) \o "#" \o ToString(q) : n \in LongLens, q \in 0..40} \cup
+            {"#" \o ToString(n) \o "#" \o ToString(n - q) : n \in LongLens, q \in 0..6}
 Lower(u) == CASE u \in {"b", "B"} -> "b" [] u \in {"kb", "KB", "Kb"} -> "kb" [] u \in {"kib", "KiB"} -> "kib"
               [] u \in {"mb", "Mb"} -> "mb" [] u = "MIB" -> "mib" [] u = "gb" -> "gb" [] u = "GiB" -> "gib"
               [] u \in {"tb", "TB"} -> "tb" [] u = "tib" -> "tib"
@@ -46,7 +51,7 @@ Bits == IF Target = "size" THEN 64 ELSE 63
 
 \* ---- literals
 Lit == [form : {"int", "str"}, lead : {"", " ", "-"}, num : PowNums \cup SmallNums, frac : BOOLEAN,
-        ws : {"", " ", "   "}, unit : {""} \cup SizeUnits \cup IntervalUnits \cup JunkUnits, trail : {"", " "}]
+        ws : {"", " ", "   "}, unit : {""} \cup SizeUnits \cup IntervalUnits \cup JunkUnits \cup LongJunk, trail : {"", " "}]
 WellShapedInt(l) == l.form = "int" /\ l.frac = FALSE /\ l.ws = "" /\ l.unit = "" /\ l.trail = "" /\ l.lead \in {"", "-"} /\ l.num.t \notin {"lz", "sp"}
 \* the verdict: [ok, shift, unit]
 Decide(l) ==
@@ -69,7 +74,10 @@ Space == {l \in Plain \cup Spelled : (l.unit \in SizeUnits => Target = "size") /
                                       \* "-0" is read differently by YAML and JSON; it is not a number the property talks about
                                       /\ ~(l.lead = "-" /\ ((l.num.t = "pow" /\ l.num.k = 0 /\ l.num.d = -1) \/ (l.num.t # "pow" /\ l.num.n = 0)))
                                       \* "1 0" without a unit and followed by nothing is a digit, blanks, digit: covered with units only
-                                      /\ (l.num.t = "sp" => l.unit # "")}
+                                      /\ (l.num.t = "sp" => l.unit # "")
+                                      \* long junk units go with one number and one spelling
+                                      /\ (l.unit \in LongJunk => (l.num = [t |-> "small", k |-> 0, d |-> 0, n |-> 7] /\ l.form = "str"
+                                                                   /\ l.ws \in {"", " "} /\ l.lead = "" /\ l.frac = FALSE /\ l.trail = ""))}
 Init == lit \in Space /\ phase = "new"
 Judge == phase = "new" /\ phase' = "judged" /\ UNCHANGED lit
 Next == Judge
